@@ -614,3 +614,64 @@ pub fn module_deps(m: &str) -> Vec<&'static str> {
         _ => vec![],
     }
 }
+
+/// Which hand model transcribes which function (file, qualified function name as printed by the
+/// panic-site inventory - a trailing `*` matches any suffix -, model).  Used to classify panic
+/// sites that are not inside a translated kernel.
+pub fn model_table() -> Vec<(&'static str, &'static str, &'static str)> {
+    let v = "src/volatile_memory.rs";
+    let g = "src/guest_memory.rs";
+    let b = "src/bitmap/backend/atomic_bitmap.rs";
+    let m = "src/mmap/mod.rs";
+    let u = "src/mmap/unix.rs";
+    vec![
+        // ---- src/volatile_memory.rs
+        (v, "compute_offset", "Impl/Volatile.v compute_offset"),
+        (v, "VolatileMemory::*", "Impl/Volatile.v vm_*, Impl/VolMem.v"),
+        (v, "VolatileSlice::*", "Impl/Volatile.v vs_*, Impl/VolMem.v vs_*"),
+        (v, "Bytes for VolatileSlice::*", "Impl/VolMem.v vs_read/vs_write/.., Impl/IoGuest.v vs_*_volatile_*"),
+        (v, "VolatileMemory for VolatileSlice::*", "Impl/Volatile.v vs_get_slice"),
+        (v, "VolatileRef::*", "Impl/Volatile.v vr_*, Impl/VolMem.v vr_*"),
+        (v, "VolatileArrayRef::*", "Impl/Volatile.v va_*, Impl/VolMem.v va_*"),
+        (v, "PtrGuard::*", "Impl/Volatile.v guard, Impl/Xen.v"),
+        (v, "PtrGuardMut::*", "Impl/Volatile.v guard, Impl/Xen.v"),
+        (v, "alignment", "Impl/CopyPlan.v alignment"),
+        (v, "copy_single", "Impl/CopyPlan.v copy_single"),
+        (v, "copy_slice_volatile", "Impl/CopyPlan.v copy_slice_volatile"),
+        (v, "copy_slice", "Impl/CopyPlan.v copy_slice"),
+        (v, "copy_slice_impl::*", "Impl/CopyPlan.v, Impl/VolMem.v copy_*_volatile_slice"),
+        // ---- src/guest_memory.rs
+        (g, "GuestMemoryRegion::*", "Impl/Guest.v r_*"),
+        (g, "GuestMemory::*", "Impl/Guest.v gm_*, try_access"),
+        (g, "Bytes for T::*", "Impl/Guest.v gm_read/gm_write/.., Impl/IoGuest.v gm_*"),
+        // ---- bitmaps
+        (b, "AtomicBitmap::*", "Impl/Bitmap.v bm_*"),
+        (b, "Bitmap for AtomicBitmap::*", "Impl/Bitmap.v bm_mark_dirty_o / bm_dirty_at_o"),
+        (b, "Clone for AtomicBitmap::*", "Impl/Bitmap.v bm_clone"),
+        ("src/bitmap/backend/slice.rs", "*", "Impl/Bitmap.v bs_*"),
+        ("src/bitmap/backend/atomic_bitmap_arc.rs", "*", "Impl/Bitmap.v route RArc"),
+        ("src/bitmap/mod.rs", "*", "Impl/Bitmap.v routes (view_*)"),
+        // ---- src/io.rs
+        ("src/io.rs", "*", "Impl/Io.v, Impl/Std.v"),
+        // ---- src/mmap
+        (m, "check_file_offset", "Impl/MmapBuild.v check_file_offset"),
+        (m, "GuestRegionMmap::*", "Impl/MmapBuild.v guest_region_new / from_range, Impl/Mmap.v region_new"),
+        (m, "Bytes for GuestRegionMmap::*", "Impl/Guest.v reg_*, Impl/IoGuest.v"),
+        (m, "GuestMemoryRegion for GuestRegionMmap::*", "Impl/Guest.v reg_get_slice / reg_get_host_address, Impl/Volatile.v gr_*"),
+        (m, "GuestMemoryMmap::*", "Impl/Mmap.v from_arc_regions / insert_region / remove_region"),
+        (m, "GuestMemory for GuestMemoryMmap::*", "Impl/Mmap.v find_region"),
+        (u, "MmapRegionBuilder::*", "Impl/MmapBuild.v build / build_raw"),
+        (u, "MmapRegion::build*", "Impl/MmapBuild.v mr_build*"),
+        (u, "MmapRegion::new", "Impl/MmapBuild.v mr_new"),
+        (u, "MmapRegion::from_file", "Impl/MmapBuild.v mr_from_file"),
+        (u, "Drop for MmapRegion::drop", "Impl/MmapBuild.v drop_region"),
+        (u, "VolatileMemory for MmapRegion::*", "Impl/Volatile.v mr_get_slice_unix"),
+        ("src/mmap/xen.rs", "MmapRegion::fds_overlap", ""), // "" = explicitly unmodelled (first match wins)
+        ("src/mmap/xen.rs", "*", "Impl/Xen.v"),
+        // ---- addresses, endianness
+        ("src/address.rs", "*", "Impl/Address.v"),
+        ("src/endian.rs", "*", "Impl/Endian.v"),
+        ("src/atomic.rs", "*", "Impl/Rcu.v"),
+        ("src/bytes.rs", "ByteValued::*", "Impl/Volatile.v bv_from_slice"),
+    ]
+}
